@@ -217,6 +217,7 @@ def cases(tier):
     for mn in names:
         for b in BASES:
             yield {"k": "singles", "mn": mn, "base": b}
+    yield {"k": "in-repeat"}
     # negative trap numbers (accepted today as value mod 256): if accepted, the field must be v mod 256
     yield {"k": "negnum"}
 
@@ -312,6 +313,44 @@ def check(case, r, tier):
         return
     if k == "stmt":
         run_one(case["mn"], case["base"], case["text"], case["spec"], r)
+        return
+    if k == "in-repeat":
+        # one statement token compiled three times at successive addresses: PC-relative operands and branches must be
+        # encoded for each copy's own address
+        forms = [("clr", "D", 0o5000, "clr bk", [["gen", 6, 7, "rel", "bk"]]), ("tst", "D", 0o5700, "tst @bk", [["gen", 7, 7, "rel", "bk"]]),
+                 ("mov", "SD", 0o10000, "mov bk, fw", [["gen", 6, 7, "rel", "bk"], ["gen", 6, 7, "rel", "fw"]]),
+                 ("mov", "SD", 0o10000, "mov #1, bk", [["gen", 2, 7, "val", 1], ["gen", 6, 7, "rel", "bk"]]),
+                 ("jsr", "RD", 0o4000, "jsr r5, bk", [["reg", 5], ["gen", 6, 7, "rel", "bk"]]),
+                 ("ldf", "FSA", 0o172400, "ldf fw, ac1", [["gen", 6, 7, "rel", "fw"], ["ac", 1]]),
+                 ("mov", "SD", 0o10000, "mov #bk, r0", [["gen", 2, 7, "val", "bk"], ["gen", 0, 0, None, None]]),
+                 ("inc", "D", 0o5200, "inc 1000", [["gen", 6, 7, "rel", 0o1000]])]
+        for base in BASES:
+            for mn, cls, opb, text, ops in forms:
+                prog = program(base, [".repeat 3 { %s }" % text])
+                out = driver.assemble([("i.mac", prog)])
+                good = out.status == "ok"
+                why = None
+                if good:
+                    bad, why = decode_check(out.code, out.base, [[cls, opb, ops]] * 3)
+                    good = bad is None
+                r.ran("ok" if good else "misencoded", key=("in-repeat", base, text))
+                if not good:
+                    r.violation("misencoded:in-repeat:%s" % mn, "%s inside .repeat 3: %s" % (text, why or out.cls()),
+                                {"k": "stmt", "mn": mn, "base": base, "text": ".repeat 3 { %s }" % text, "spec": None}, None, out.brief())
+            for mn in ("br", "bne", "sob r2,"):
+                prog = program(base, [".repeat 3 { %s bk }" % mn])
+                out = driver.assemble([("i.mac", prog)])
+                good = out.status == "ok"
+                if good:
+                    ws = isa.to_words(out.code)
+                    for i, wd in enumerate(ws[:3]):
+                        c, b, dec, nxt = isa.decode([wd], 0)
+                        disp = dec[-1]["disp"]
+                        if (out.base + 2 * i) + 2 + 2 * disp != out.base:
+                            good = False
+                r.ran("ok" if good else "misencoded", key=("in-repeat-br", base, mn))
+                if not good:
+                    r.violation("misencoded:in-repeat:branch", "%s bk inside .repeat 3 does not reach bk from every copy" % mn, {"k": "negnum"}, None, out.brief())
         return
     if k == "negnum":
         for mn in ("emt", "trap", "sys"):
